@@ -193,7 +193,7 @@ theorem FrameAt.transfer {P : Prog} {A : Array Anns} (hA : AllChecked P A) {g : 
 /-- A state flowing into `pc'` of a checked function gives the current frame a `TopShape`. -/
 theorem top_of_flow {P : Prog} {A : Array Anns} (hA : AllChecked P A) {f : Frame} {fn : Function}
     {pc' : Nat} {out : Ann} {k sb sLen lLen : Nat} {park : Park} {sel : Option SelectState}
-    (hfn : P.functions[f.functionIndex]? = some fn) (hcc : f.capturesCount = fn.captures)
+    (hfn : P.functions[f.functionIndex]? = some fn) (hcc : CapsOK f fn)
     (hflow : flowsTo fn.instructions.size (annsOf A f.functionIndex) pc' out = true)
     (hs : sLen = sb + out.height) (hl : f.localsBase + out.locals ≤ lLen)
     (hpark : park = .none) (hsel : SelNotAt sel k) :
@@ -302,8 +302,8 @@ theorem top_of_entry {P : Prog} {A : Array Anns} (hA : AllChecked P A) {fi lb cc
     (hpark : park = .none) (hsel : SelNotAt sel k) :
     TopShape P A (Frame.new fi lb cc) k sb sLen lLen park sel := by
   have hC := checked_of hA hfn
-  exact top_of_flow (f := Frame.new fi lb cc) hA hfn hcc hC.entry (by simp [hs]) (by simpa [Frame.new] using hl)
-    hpark hsel
+  exact top_of_flow (f := Frame.new fi lb cc) hA hfn (fun _ => hcc) hC.entry (by simp [hs])
+    (by simpa [Frame.new] using hl) hpark hsel
 
 theorem run_call {P : Prog} {A : Array Anns} (hA : AllChecked P A) {O : Oracle} (hO : OracleWF P O)
     {p : Proc} {f : Frame} {rest : List Frame} {fn : Function} {a : Ann} {sb : Nat}
@@ -416,8 +416,15 @@ theorem run_tailCall {P : Prog} {A : Array Anns} (hA : AllChecked P A)
       have hslen : s.length = sb := by simp [hst] at hs; omega
       refine Inv.intro (f := Frame.new f.functionIndex f.localsBase f.capturesCount) (rest := rest)
         (sb := sb) rfl hsw (hinv.localsWF.take _) hinv.selWF hselb hres ?_ hbelow
-      refine top_of_entry hA hat.hfn hat.hcc (by simp [hslen]) ?_ hpark hsel
-      simp [List.length_take, hat.hcc]
+      have hself : fn.selfTail = true := by
+        have hi := hat.hinstr
+        obtain ⟨hlt, hget⟩ := Array.getElem?_eq_some_iff.mp hi
+        simp only [Function.selfTail, List.contains_iff_mem]
+        rw [← hget]
+        exact Array.getElem_mem_toList hlt
+      have hcc := hat.hcc hself
+      refine top_of_entry hA hat.hfn hcc (by simp [hslen]) ?_ hpark hsel
+      simp [List.length_take, hcc]
       omega
   | false =>
     have hh := transfer_tailCall_false htr
